@@ -43,6 +43,14 @@ def step (s : St) (ws : List String) : St × String :=
   match ws with
   | ["new"] => let s' : St := { t := new, keys := [], failNext := false }; (s', "new" ++ wb s'.t [] ++ fmtAs Zix.C08Hash.newEvents)
   | ["failnext"] => ({ s with failNext := true }, "failnext")
+  | ["newfail", k] =>
+    -- a second table whose creation fails at its k-th allocation request: nothing is kept; a header that was obtained
+    -- (k = 1) takes the next block id and is released again
+    if k == "0" then (s, "newfail=NULL" ++ wb s.t [] ++ " ev[M0]")
+    else if k == "1" then
+      let n := s.blocks.next
+      ({ s with blocks := { s.blocks with next := n + 1 } }, "newfail=NULL" ++ wb s.t [] ++ s!" ev[M{n} C0 f{n}]")
+    else (s, "bad-op")
   | ["ins", r, k, c] | ["pins", r, k, c] | ["pinsp", r, k, c] =>
     match r.toNat?, k.toNat?, c.toNat? with
     | some r, some k, some c =>
